@@ -156,7 +156,12 @@ func groundDeterminism(e *Engine, prop string) []*Obligation {
 		base := file[strings.LastIndex(file, "/")+1:]
 		// block execution code only: module root (abci, handlers) and keeper packages; genesis validation,
 		// snapshot restore, generated code, clients and test utilities are outside block execution
-		if !strings.HasPrefix(p, "x/") || strings.Contains(p, "/client") || strings.Contains(p, "/testutil") || strings.Contains(p, "/simulation") || strings.HasSuffix(p, "/types") {
+		if !strings.HasPrefix(p, "x/") || strings.Contains(p, "/client") || strings.Contains(p, "/testutil") || strings.Contains(p, "/simulation") {
+			continue
+		}
+		// the modules' types packages: the helper methods block execution calls (Tunnel.GetSignalIDs, LatestPrices.
+		// UpdatePrices, encoders ...); message validation, codec registration and generated code are not block execution
+		if strings.HasSuffix(p, "/types") && (strings.HasPrefix(base, "msg") || strings.HasPrefix(base, "codec") || strings.HasPrefix(base, "expected") || strings.HasPrefix(base, "errors") || strings.HasPrefix(base, "events")) {
 			continue
 		}
 		if strings.Contains(base, "genesis") || strings.Contains(base, "snapshotter") || strings.HasSuffix(base, ".pb.go") || strings.HasSuffix(base, ".pb.gw.go") {
